@@ -5,6 +5,8 @@
    Definitions only.
 
    entriesDict  -> c_dict   (association list, keys unique)
+   entriesSlot  -> c_slot   (id -> index of the newest slot holding that id; added by the fix
+                             "SessionCache must not drop a live entry when a session ID is stored twice")
    entriesList  -> c_list   (None is the initial (None,None) pair; Some (id, timestamp))
    firstIndex, lastIndex, maxAge -> c_first, c_last, c_maxAge
    sessions are handles (Z); session.valid() is a query to the session's owner
@@ -16,6 +18,7 @@ Open Scope Z_scope.
 
 Record cache := {
   c_dict : dict;
+  c_slot : dict;
   c_list : list (option (Z * Z));
   c_first : Z;
   c_last : Z;
@@ -23,55 +26,81 @@ Record cache := {
 
 (* SessionCache.__init__(maxEntries, maxAge) : [(None,None)] * maxEntries *)
 Definition init (maxEntries maxAge : Z) : cache :=
-  {| c_dict := []; c_list := repeat None (Z.to_nat maxEntries);
+  {| c_dict := []; c_slot := []; c_list := repeat None (Z.to_nat maxEntries);
      c_first := 0; c_last := 0; c_maxAge := maxAge |}.
 
-Definition with_dict (c : cache) (d : dict) : cache :=
-  {| c_dict := d; c_list := c_list c; c_first := c_first c; c_last := c_last c; c_maxAge := c_maxAge c |}.
+Definition with_dicts (c : cache) (d sl : dict) : cache :=
+  {| c_dict := d; c_slot := sl; c_list := c_list c; c_first := c_first c; c_last := c_last c; c_maxAge := c_maxAge c |}.
 Definition with_list (c : cache) (l : list (option (Z * Z))) : cache :=
-  {| c_dict := c_dict c; c_list := l; c_first := c_first c; c_last := c_last c; c_maxAge := c_maxAge c |}.
+  {| c_dict := c_dict c; c_slot := c_slot c; c_list := l; c_first := c_first c; c_last := c_last c; c_maxAge := c_maxAge c |}.
 Definition with_first (c : cache) (i : Z) : cache :=
-  {| c_dict := c_dict c; c_list := c_list c; c_first := i; c_last := c_last c; c_maxAge := c_maxAge c |}.
+  {| c_dict := c_dict c; c_slot := c_slot c; c_list := c_list c; c_first := i; c_last := c_last c; c_maxAge := c_maxAge c |}.
 Definition with_last (c : cache) (i : Z) : cache :=
-  {| c_dict := c_dict c; c_list := c_list c; c_first := c_first c; c_last := i; c_maxAge := c_maxAge c |}.
+  {| c_dict := c_dict c; c_slot := c_slot c; c_list := c_list c; c_first := c_first c; c_last := i; c_maxAge := c_maxAge c |}.
 
-(* the while loop of _purge; the dict is returned also when a statement raises.
+(* _drop(index): forget the entry of a slot that is about to be recycled, unless the slot is stale
+     sessionID = self.entriesList[index][0]
+     if self.entriesSlot.get(sessionID) == index:
+         del(self.entriesDict[sessionID]); del(self.entriesSlot[sessionID])
+   Both dicts are returned also when a statement raises. *)
+Definition drop (l : list (option (Z * Z))) (d sl : dict) (index : Z) : dict * dict * option exn :=
+  match py_index l index with
+  | Err e => (d, sl, Some e)
+  | Ok None => (d, sl, None)              (* entriesSlot.get(None) is None, which is not an index *)
+  | Ok (Some (id, _)) =>
+    match dict_get id sl with
+    | None => (d, sl, None)
+    | Some j =>
+      if j =? index then
+        match dict_del id d with
+        | None => (d, sl, Some KeyError)
+        | Some d' =>
+          match dict_del id sl with
+          | None => (d', sl, Some KeyError)
+          | Some sl' => (d', sl', None)
+          end
+        end
+      else (d, sl, None)
+    end
+  end.
+
+(* the while loop of _purge; the dicts are returned also when a statement raises.
      while index != self.lastIndex:
          if currentTime - self.entriesList[index][1] > self.maxAge:
-             del(self.entriesDict[self.entriesList[index][0]])
+             self._drop(index)
              index = (index+1) % len(self.entriesList)
          else: break                                                          *)
 Fixpoint purge_loop (fuel : nat) (l : list (option (Z * Z))) (last maxAge now : Z)
-         (d : dict) (index : Z) : dict * res Z :=
+         (d sl : dict) (index : Z) : dict * dict * res Z :=
   match fuel with
-  | O => (d, Err OutOfFuel)
+  | O => (d, sl, Err OutOfFuel)
   | S fuel' =>
-    if index =? last then (d, Ok index) else
+    if index =? last then (d, sl, Ok index) else
     match py_index l index with
-    | Err e => (d, Err e)
-    | Ok None => (d, Err TypeError)                 (* currentTime - None *)
+    | Err e => (d, sl, Err e)
+    | Ok None => (d, sl, Err TypeError)             (* currentTime - None *)
     | Ok (Some (id, ts)) =>
       if now - ts >? maxAge then
-        match dict_del id d with
-        | None => (d, Err KeyError)
-        | Some d' =>
+        match drop l d sl index with
+        | (d', sl', Some e) => (d', sl', Err e)
+        | (d', sl', None) =>
           match py_mod (index + 1) (zlen l) with
-          | Err e => (d', Err e)
-          | Ok i' => purge_loop fuel' l last maxAge now d' i'
+          | Err e => (d', sl', Err e)
+          | Ok i' => purge_loop fuel' l last maxAge now d' sl' i'
           end
         end
-      else (d, Ok index)
+      else (d, sl, Ok index)
     end
   end.
 
 (* _purge() with currentTime = now.  At most len(entriesList) iterations are possible
    before index meets lastIndex, hence the fuel. *)
 Definition purge (c : cache) (now : Z) : cache * outcome :=
-  let '(d, r) := purge_loop (S (length (c_list c))) (c_list c) (c_last c) (c_maxAge c) now
-                            (c_dict c) (c_first c) in
+  let '(d, sl, r) := purge_loop (S (length (c_list c))) (c_list c) (c_last c) (c_maxAge c) now
+                                (c_dict c) (c_slot c) (c_first c) in
   match r with
-  | Ok i => (with_first (with_dict c d) i, ORet None)
-  | Err e => (with_dict c d, OExc e)        (* self.firstIndex = index is not reached *)
+  | Ok i => (with_first (with_dicts c d sl) i, ORet None)
+  | Err e => (with_dicts c d sl, OExc e)    (* self.firstIndex = index is not reached *)
   end.
 
 (* __getitem__(sessionID) at clock value now; valid s = session.valid() at that moment *)
@@ -89,7 +118,8 @@ Definition getitem (c : cache) (valid : Z -> bool) (id now : Z) : cache * outcom
 (* __setitem__(sessionID, session) at clock value now *)
 Definition setitem (c : cache) (id s now : Z) : cache * outcome :=
   let d1 := dict_set id s (c_dict c) in
-  let c1 := with_dict c d1 in
+  let sl1 := dict_set id (c_last c) (c_slot c) in
+  let c1 := with_dicts c d1 sl1 in
   match py_setitem (c_list c) (c_last c) (Some (id, now)) with
   | Err e => (c1, OExc e)
   | Ok l2 =>
@@ -99,18 +129,13 @@ Definition setitem (c : cache) (id s now : Z) : cache * outcome :=
     | Ok last' =>
       let c3 := with_last c2 last' in
       if last' =? c_first c then
-        match py_index l2 (c_first c) with
-        | Err e => (c3, OExc e)
-        | Ok None => (c3, OExc KeyError)            (* del entriesDict[None] *)
-        | Ok (Some (k, _)) =>
-          match dict_del k d1 with
-          | None => (c3, OExc KeyError)
-          | Some d4 =>
-            let c4 := with_dict c3 d4 in
-            match py_mod (c_first c + 1) (zlen l2) with
-            | Err e => (c4, OExc e)
-            | Ok f' => (with_first c4 f', ORet None)
-            end
+        match drop l2 d1 sl1 (c_first c) with
+        | (d4, sl4, Some e) => (with_dicts c3 d4 sl4, OExc e)
+        | (d4, sl4, None) =>
+          let c4 := with_dicts c3 d4 sl4 in
+          match py_mod (c_first c + 1) (zlen l2) with
+          | Err e => (c4, OExc e)
+          | Ok f' => (with_first c4 f', ORet None)
           end
         end
       else (c3, ORet None)
@@ -176,12 +201,12 @@ Fixpoint slots_eqb (a b : list (option (Z * Z))) : bool :=
   | _, _ => false
   end.
 
-(* observed: (sorted dict items, entriesList, firstIndex, lastIndex, outcome) *)
-Definition obs := (dict * list (option (Z * Z)) * Z * Z * outcome)%type.
+(* observed: (sorted dict items, sorted entriesSlot items, entriesList, firstIndex, lastIndex, outcome) *)
+Definition obs := (dict * dict * list (option (Z * Z)) * Z * Z * outcome)%type.
 
 Definition obs_matches (m : cache * outcome) (o : obs) : bool :=
-  let '(d, l, f, la, r) := o in
-  dict_same (c_dict (fst m)) d && slots_eqb (c_list (fst m)) l &&
+  let '(d, sl, l, f, la, r) := o in
+  dict_same (c_dict (fst m)) d && dict_same (c_slot (fst m)) sl && slots_eqb (c_list (fst m)) l &&
   (c_first (fst m) =? f) && (c_last (fst m) =? la) && outcome_eqb (snd m) r.
 
 Fixpoint all_match (ms : list (cache * outcome)) (os : list obs) : bool :=
